@@ -298,6 +298,7 @@ def shrink(work, lines, ignore=None, budget=60):
     cur = list(lines)
     tries = 0
     chunk = max(1, (len(cur) - 1) // 2)
+    t_end = time.time() + 180          # (a case over a multi-million-slot archive takes tens of seconds per try)
 
     def signature(r):
         # a shorter history is kept only if it disagrees in the same way: the same operation on both
@@ -309,10 +310,10 @@ def shrink(work, lines, ignore=None, budget=60):
         return (str(d[1]).split(' ')[0], str(d[2]).split(' ')[0], 'nofile' in str(d[1]) or 'nofile' in str(d[2]))
     r0 = run_single(work, cur)
     want = signature(r0) if r0 is not None else None
-    while chunk >= 1 and tries < budget:
+    while chunk >= 1 and tries < budget and time.time() < t_end:
         i = 1
         progressed = False
-        while i < len(cur) and tries < budget:
+        while i < len(cur) and tries < budget and time.time() < t_end:
             cand = cur[:i] + cur[i + chunk:]
             tries += 1
             r = run_single(work, cand)
